@@ -36,7 +36,7 @@ CLASSES = {
             "callback-before-ready", "flag-mismatch"},
     "C10": ORDER | {"drop-not-full", "drop-unknown", "cache-not-current", "filter-not-quiescent", "list-not-snapshot", "fsub-emits-other", "events-not-emitted", "runaway-goroutine", "close-hangs", "shutdown-timeout", "api-call-blocks"},
     "C11": {"tree-done-differs", "tree-log-differs", "stopped-outside-closed-subtree", "cascade-incomplete", "shutdown-timeout", "closed-before-drained", "close-hangs", "api-call-blocks", "goroutine-leak", "runaway-goroutine"} | ORDER,
-    "C12": {"tree-errs-differ", "tree-done-differs", "goroutine-leak", "shutdown-timeout", "close-hangs", "call-blocks-after-done", "call-fails-after-done", "closed-before-drained", "api-call-blocks",
+    "C12": {"call-in-flight-after-done", "tree-errs-differ", "tree-done-differs", "goroutine-leak", "shutdown-timeout", "close-hangs", "call-blocks-after-done", "call-fails-after-done", "closed-before-drained", "api-call-blocks",
             "racing-call-zombie", "runaway-goroutine"},
     "C16": {"monitor-history-not-allowed", "modesmon-error", "callbacks-overlap", "initialize-not-first-or-twice", "callback-before-ready", "callback-after-done", "initialize-not-cache-content",
             "callback-before-initialize", "callback-not-next-event", "callback-of-unknown-monitor", "stuck-at-quiescence", "monitor-not-initialized"},
@@ -264,7 +264,7 @@ def check_tree(prop, tier, replay):
         # unbounded (any MaxEvents, any buffer) counterpart of Monitor.cfg's Serial / InitFirstOnce / InOrder
         mnames = mnames + [vlib.prove("MonitorProofs")]
         # spec -> code: every order of the monitor's stimuli replayed on the real monitor
-        modesmon = run_modes_mon(res, tier, {"callbacks-overlap", "initialize-not-cache-content", "initialize-not-first-or-twice", "monitor-history-not-allowed", "modesmon-error", "crash"})
+        modesmon = run_modes_mon(res, tier, {"callbacks-overlap", "initialize-not-cache-content", "initialize-not-first-or-twice", "callback-not-next-event", "monitor-history-not-allowed", "modesmon-error", "crash"})
         nscen += modesmon["replays"]
         mdist += modesmon["states"]
         mgen += modesmon["generated"]
@@ -292,14 +292,14 @@ def check_tree(prop, tier, replay):
     return res.finish()
 
 
-def run_modes_mon(res, tier, want):
+def run_modes_mon1(res, tier, want, noupd):
     """Spec -> code for the monitor: TLC enumerates every order of {ready, publish, close, handler returns} (ModeSMon.tla)
     with every history the specification allows; the harness replays each order on the real monitor; TLC compares."""
     import json as _json
     sc = vlib.scratch()
     h = vlib.build_harness()
     n = 5 if tier == "quick" else 7
-    rc, out = vlib.run_tlc("ModeSMon.tla", open(os.path.join(vlib.SPEC, "cfg", "ModeSMon-%d.cfg" % n)).read(), workers=4, heap="6g", timeout=1800)
+    rc, out = vlib.run_tlc("ModeSMon.tla", open(os.path.join(vlib.SPEC, "cfg", "ModeSMon-%d%s.cfg" % (n, "-noupd" if noupd else ""))).read(), workers=4, heap="6g", timeout=1800)
     if rc != 0 or "No error has been found" not in out:
         raise Inconclusive("ModeSMon.tla (%d): the model is refuted or TLC failed: %s" % (n, out[-2000:]))
     gen, states = vlib.tlc_stats(out)
@@ -310,16 +310,16 @@ def run_modes_mon(res, tier, want):
     expect = sum(4 ** k for k in range(1, n + 1))
     if len(beh) != expect:
         raise Inconclusive("ModeSMon.tla printed %d orders, expected %d" % (len(beh), expect))
-    bf = os.path.join(sc, "monbeh.ndjson")
+    bf = os.path.join(sc, "monbeh%s.ndjson" % ("-noupd" if noupd else ""))
     with open(bf, "w") as f:
         for st, hs in beh.items():
             f.write('{"stim":%s,"preds":[%s]}\n' % (_json.dumps(list(st)), ",".join(sorted(hs))))
     nsh = 8 if tier == "quick" else 16
     cmds, outs = [], []
     for s_ in range(nsh):
-        o = os.path.join(sc, "modesmon-%d.ndjson" % s_)
+        o = os.path.join(sc, "modesmon%s-%d.ndjson" % ("-noupd" if noupd else "", s_))
         outs.append(o)
-        cmds.append(([h, "modesmon", "-in", bf, "-out", o, "-shards", str(nsh), "-shard", str(s_), "-repeat", "2"], o + ".log", None))
+        cmds.append(([h, "modesmon", "-in", bf, "-out", o, "-shards", str(nsh), "-shard", str(s_), "-repeat", "1" if noupd else "2"] + (["-noupdate"] if noupd else []), o + ".log", None))
     rcs = vlib.run_parallel(cmds, timeout=2400, maxpar=16)
     good = []
     for rc2, o in zip(rcs, outs):
@@ -354,6 +354,18 @@ def run_modes_mon(res, tier, want):
                 sample = _json.loads(ls[len(ls) // 2])
     log("mode S (monitor): %d replays of %d stimulus orders (length <= %d; %d orders with more than one allowed history)" % (total, len(beh), n, multi))
     return {"orders": len(beh), "replays": total, "maxlen": n, "states": states, "generated": gen, "orders_with_choice": multi, "sample": sample}
+
+
+
+def run_modes_mon(res, tier, want):
+    """Both handler kinds: every callback registered, and a HandlerBuilder handler without an update callback."""
+    a = run_modes_mon1(res, tier, want, False)
+    b = run_modes_mon1(res, tier, want, True)
+    a["replays"] += b["replays"]
+    a["states"] += b["states"]
+    a["generated"] += b["generated"]
+    a["without_update_callback"] = {"orders": b["orders"], "replays": b["replays"]}
+    return a
 
 
 def run_modes_tree(res, tier, want):
